@@ -219,6 +219,19 @@ def dispatch (env : Env) (j : Json) : Json :=
       | some v => Json.mkObj [("in", Json.bool true), ("value", valToJson v),
                               ("null", Json.bool (Spec.isNullOf ty v))]
       | none => Json.mkObj [("in", Json.bool false)]
+  | some "spec.line" =>
+    let S : Spec.SCtx := { enums := Generated.enums, H := floatHostOf j }
+    match (getStr? j "scheme").bind (Spec.layoutOf Generated.schemeDefs) with
+    | none => Json.mkObj [("err", "no such scheme")]
+    | some layout =>
+      let fields := splitOn '\t' (rstripCRLF (txt ((getStr? j "line").getD "")))
+      Json.mkObj [("count_ok", Json.bool (fields.length == layout.length)),
+        ("fields", Json.arr ((layout.zip fields).map (fun (p : (String × Spec.ColType) × Text) =>
+          match Spec.specBuild S p.1.2 p.2 with
+          | some v => Json.mkObj [("in", Json.bool true), ("value", valToJson v),
+                                  ("null", Json.bool (Spec.isNullOf p.1.2 v)),
+                                  ("pref", match Spec.preferredNull p.1.2 with | some t => jtxt t | none => Json.null)]
+          | none => Json.mkObj [("in", Json.bool false)])).toArray)]
   | some "spec.layouts" =>
     Json.mkObj [("layouts", Json.arr (Generated.schemeDefs.map (fun d =>
       Json.mkObj [("annotation", Json.str d.annotation),
